@@ -220,7 +220,8 @@ func (m *ModulusBasic) modSqrtGeneric(out, x *Nat) ct.Bool {
 
 // ModSqrt sets out = sqrt(x) (mod m) if it exists.
 func (m *ModulusBasic) ModSqrt(out, x *Nat) ct.Bool {
-	if m.Nat().IsProbablyPrime() == ct.True {
+	// the prime path (saferith.ModSqrt) is defined for odd primes only and panics on 2
+	if m.Nat().IsOdd() == ct.True && m.Nat().IsProbablyPrime() == ct.True {
 		return m.modSqrtPrime(out, x)
 	} else {
 		return m.modSqrtGeneric(out, x)
